@@ -330,6 +330,13 @@ class RecipeReplay:
             self.report("C08", "result_names", key, f"bake returned {list(results.keys())}, specified {ev['decl']}", ev)
             return
         k = len(ev["prog"]) + 1
+        # C03: nothing bake returns holds a negative amount, a negative volume or more than its stated capacity
+        self.ran("C03")
+        for n in ev["decl"]:
+            bad = self.P.invalid(results[n], k)
+            if bad:
+                self.report("C03", "invalid_object_returned", dict(key, object=self.kind_of(n)), f"bake()[{n!r}]: {bad}", ev)
+                break
         for n, spec_v in zip(ev["decl"], ev["results"]):
             if self.kind_of(n) == "P":
                 self.ran("C07")
